@@ -38,7 +38,7 @@ def run(ctx):
         ctx.count()
         ctx.nontriv(rr["variant"])
         if not rr["ok"]:
-            ctx.violation(rr["sig"], rr["detail"], scns[rr["id"]])
+            ctx.violation(rr["sig"], rr["detail"], dict(scns[rr["id"]], idx=rr["id"]))
     # the two "system default" file options (resolved through the home directory), in a process of their own
     for rr in ctx.run_harness("c14home", [], timeout=300):
         ctx.count()
